@@ -82,8 +82,10 @@ package floatingip
 //@ func (*FloatingIP).CloneWith inline
 //@ func (*crdIpam).syncCacheAfterCreate inline
 //@   requires [C19] held[ptr(ci.cacheLock)] == 2
+//@   requires fip != nil && ci.allocatedFIPs != nil && ci.unallocatedFIPs != nil
 //@ func (*crdIpam).syncCacheAfterDel inline
 //@   requires [C19] held[ptr(ci.cacheLock)] == 2
+//@   requires released != nil && ci.allocatedFIPs != nil && ci.unallocatedFIPs != nil
 
 // ---- Release: acts only on an (ip, key) match; whole view otherwise unchanged; failure changes nothing ----
 //@ func [C01,C04,C05,C19] (*crdIpam).Release
@@ -259,18 +261,18 @@ package floatingip
 // and filed under its own IP string.
 //@ func [C01,C05,C06,C09] (*crdIpam).ConfigurePool
 //@   requires ci.cacheLock != nil && ci.client != nil && held[ptr(ci.cacheLock)] == 0
-//@   requires forall i int :: 0 <= i && i < len(floatIPs) ==> floatIPs[i] != nil
-//@   requires forall p *FloatingIPPool, k int {p.NodeSubnets[k]} :: allocated(p) && 0 <= k && k < len(p.NodeSubnets) ==> p.NodeSubnets[k] != nil
-//@   requires forall p *FloatingIPPool, r int {p.IPRanges[r]} :: allocated(p) && 0 <= r && r < len(p.IPRanges) ==> nets.wfRange(p.IPRanges[r])
+//@   requires [C18] forall p *FloatingIPPool, k int {p.NodeSubnets[k]} :: allocated(p) && 0 <= k && k < len(p.NodeSubnets) ==> p.NodeSubnets[k] != nil
+//@   requires [C18] forall p *FloatingIPPool, r int {p.IPRanges[r]} :: allocated(p) && 0 <= r && r < len(p.IPRanges) ==> nets.wfRange(p.IPRanges[r])
 //@   ensures [C01,C09,C06:reload-tables-disjoint] result == nil ==> ci.allocatedFIPs != nil && ci.unallocatedFIPs != nil && ci.allocatedFIPs != ci.unallocatedFIPs && forall k string :: !(k in ci.allocatedFIPs && k in ci.unallocatedFIPs)
 //@   ensures [C01,C09:reload-free-entries-blank] result == nil ==> forall k string :: k in ci.unallocatedFIPs ==> ci.unallocatedFIPs[k] != nil && freeEntry(ci.unallocatedFIPs[k]) && ci.unallocatedFIPs[k].pool != nil && ipstr(ci.unallocatedFIPs[k].IP) == k
-//@   modifies all
+//@   modifies crdIpam.FloatingIPs, crdIpam.allocatedFIPs, crdIpam.unallocatedFIPs, FloatingIPPool.nodeSubnets, FloatingIPPool.index, elemsof(*FloatingIPPool), StoreDom, faults, fresh FloatingIP.*, fresh mapsof(map[string]*FloatingIP), fresh mapsof(map[string]sets.Empty), fresh elemsof(string), fresh elemsof(byte), fresh Attr.*, fresh net.IPNet.*
 //@ pure freeTbl(ci *crdIpam, m map[string]*FloatingIP) bool = m != nil && fresh(m) && m != ci.allocatedFIPs && (forall k string :: k in m ==> !(k in ci.allocatedFIPs)) && (forall k string :: k in m ==> m[k] != nil && fresh(m[k])) && (forall k string :: k in m ==> freeEntry(m[k])) && (forall k string :: k in m ==> m[k].pool != nil) && (forall k string :: k in m ==> ipstr(m[k].IP) == k)
-//@   loop 5,call:walkIPRanges#0/0,call:walkIPRanges#0/1 invariant freeTbl(ci, tmpCacheUnallocated) && ci.allocatedFIPs != nil && held[ptr(ci.cacheLock)] == 2
+//@   loop 6,call:walkIPRanges#0/0,call:walkIPRanges#0/1 invariant freeTbl(ci, tmpCacheUnallocated) && ci.allocatedFIPs != nil && held[ptr(ci.cacheLock)] == 2
 //@   loop call:walkIPRanges#0/0,call:walkIPRanges#0/1 invariant fipConf != nil
-//@   loop 0,2,3,4,5 invariant forall i int :: 0 <= i && i < len(floatIPs) ==> floatIPs[i] != nil && allocated(floatIPs[i])
-//@   loop 0,1 invariant forall p *FloatingIPPool, k int {p.NodeSubnets[k]} :: allocated(p) && 0 <= k && k < len(p.NodeSubnets) ==> p.NodeSubnets[k] != nil
-//@   loop 0,1,2,3,4,5,call:walkIPRanges#0/0,call:walkIPRanges#0/1 invariant forall p *FloatingIPPool, r int {p.IPRanges[r]} :: allocated(p) && 0 <= r && r < len(p.IPRanges) ==> nets.wfRange(p.IPRanges[r])
+//@   loop 1,3,4,5,6 invariant forall i int :: 0 <= i && i < len(floatIPs) ==> floatIPs[i] != nil && allocated(floatIPs[i])
+//@   loop 1,2 invariant forall p *FloatingIPPool, k int {p.NodeSubnets[k]} :: allocated(p) && 0 <= k && k < len(p.NodeSubnets) ==> p.NodeSubnets[k] != nil
+//@   loop 1,2,3,4,5,6,call:walkIPRanges#0/0,call:walkIPRanges#0/1 invariant forall p *FloatingIPPool, r int {p.IPRanges[r]} :: allocated(p) && 0 <= r && r < len(p.IPRanges) ==> nets.wfRange(p.IPRanges[r])
+//@   loop 0 invariant forall j int :: 0 <= j && j < idx ==> floatIPs[j] != nil
 //@ func [C05,C09] (*crdIpam).listFloatingIPs trusted noeffect
 //@   ensures result1 == nil ==> result0 != nil
 
@@ -507,3 +509,23 @@ package floatingip
 //@   ensures [C06:offered-subnet-has-free-ip] len(ipranges) == 0 ==> forall s string :: s in result0 ==> exists k string :: k in ci.unallocatedFIPs && hasSubnet(ci.unallocatedFIPs[k].pool, s)
 //@   ensures [C06:offered-subnet-serves-every-range] forall s string, i int {s in result0, ipranges[i]} :: s in result0 && 0 <= i && i < len(ipranges) ==> servable(ci, s, ipranges[i])
 //@   modifies fresh mapsof(map[string]sets.Empty), fresh mapsof(map[int]sets.Empty), fresh elemsof(string), fresh elemsof(int), fresh elemsof(byte)
+
+// ---- Collect (metrics scrape): copies the tables under the read lock, then works on the copies ----
+//@ pure nonNilVals(m map[string]*FloatingIP) bool = forall k string :: k in m ==> m[k] != nil
+//@ func [C18,C19] (*crdIpam).Collect
+//@   requires ci.cacheLock != nil && held[ptr(ci.cacheLock)] == 0 && ci.allocatedFIPs != nil && ci.unallocatedFIPs != nil && nonNilVals(ci.allocatedFIPs) && nonNilVals(ci.unallocatedFIPs)
+//@   requires forall i int :: 0 <= i && i < len(ci.FloatingIPs) ==> ci.FloatingIPs[i] != nil
+//@   loop 0 invariant held[ptr(ci.cacheLock)] == 1 && allocated != nil && fresh(allocated) && unallocated != nil && fresh(unallocated) && allocated != unallocated && nonNilVals(allocated) && len(pools) == len(ci.FloatingIPs)
+//@   loop 1 invariant held[ptr(ci.cacheLock)] == 1 && allocated != nil && fresh(allocated) && unallocated != nil && fresh(unallocated) && allocated != unallocated && nonNilVals(allocated) && nonNilVals(unallocated) && len(pools) == len(ci.FloatingIPs)
+//@   loop 2 invariant held[ptr(ci.cacheLock)] == 1 && nonNilVals(allocated) && len(pools) == len(ci.FloatingIPs) && fresh(pools) && (forall i int :: 0 <= i && i < len(ci.FloatingIPs) ==> ci.FloatingIPs[i] != nil) && forall j int :: 0 <= j && j < idx ==> pools[j] != nil
+//@   loop 3,4 invariant nonNilVals(allocated) && forall j int :: 0 <= j && j < len(pools) ==> pools[j] != nil
+//@   loop 4 invariant pool != nil
+//@ func (IPAM).ConfigurePool trusted
+//@   let ci = as(crdIpam, self)
+//@   let floatIPs = arg0
+//@   requires ci.cacheLock != nil && ci.client != nil && held[ptr(ci.cacheLock)] == 0
+//@   requires [C18] forall p *FloatingIPPool, k int {p.NodeSubnets[k]} :: allocated(p) && 0 <= k && k < len(p.NodeSubnets) ==> p.NodeSubnets[k] != nil
+//@   requires [C18] forall p *FloatingIPPool, r int {p.IPRanges[r]} :: allocated(p) && 0 <= r && r < len(p.IPRanges) ==> nets.wfRange(p.IPRanges[r])
+//@   ensures [C01,C09,C06:reload-tables-disjoint] result == nil ==> ci.allocatedFIPs != nil && ci.unallocatedFIPs != nil && ci.allocatedFIPs != ci.unallocatedFIPs && forall k string :: !(k in ci.allocatedFIPs && k in ci.unallocatedFIPs)
+//@   ensures [C01,C09:reload-free-entries-blank] result == nil ==> forall k string :: k in ci.unallocatedFIPs ==> ci.unallocatedFIPs[k] != nil && freeEntry(ci.unallocatedFIPs[k]) && ci.unallocatedFIPs[k].pool != nil && ipstr(ci.unallocatedFIPs[k].IP) == k
+//@   modifies crdIpam.FloatingIPs, crdIpam.allocatedFIPs, crdIpam.unallocatedFIPs, FloatingIPPool.nodeSubnets, FloatingIPPool.index, elemsof(*FloatingIPPool), StoreDom, faults, fresh FloatingIP.*, fresh mapsof(map[string]*FloatingIP), fresh mapsof(map[string]sets.Empty), fresh elemsof(string), fresh elemsof(byte), fresh Attr.*, fresh net.IPNet.*
